@@ -57,6 +57,8 @@ class Eval:
         self.alias = {}           # local id bound by reference into another local -> (that local's id, path): in-place updates are written back
         self.effect_calls = None  # optional: short callee names whose calls are recorded in self.out as ('emit', name, args) with path conditions and loops
         self.closure_args = None  # optional: [args of the 1st closure met, args of the 2nd, ...] to specialise closures on concrete arguments
+        self.match_arms = {}      # scrutinee term -> [(pattern key, guarded?) of every arm, in order] of each undecided match met on it
+        self.ctor_types = {}      # tuple-struct constructor term -> its type as rustc printed it (e.g. which Format<'_, T> a Format(x) is)
 
     # ------------------------------------------------------------------ entry points
     def function(self, body, args=None, depth=0):
@@ -362,6 +364,7 @@ class Eval:
                 self.effect(decided["body"], env, depth)
                 return
             envs = []
+            self.match_arms.setdefault(sc, []).append(tuple((hq.pat_key(a_["pat"]), "guard" in a_) for a_ in e["arms"]))
             for a in e["arms"]:
                 ea = dict(env)
                 self.bind_pat(a["pat"], sc, ea)
@@ -652,6 +655,7 @@ class Eval:
                 if decided is not None:
                     self.bind_pat(decided["pat"], sc, env)
                     return self.expr(decided["body"], env, depth)
+            self.match_arms.setdefault(sc, []).append(tuple((hq.pat_key(a_["pat"]), "guard" in a_) for a_ in live))
             for a in live:
                 ea = dict(env)
                 self.bind_pat(a["pat"], sc, ea)
@@ -775,7 +779,10 @@ class Eval:
         c = ctor_of(e)
         if c:
             name = "%s::%s" % (hq.last(c[0]), c[1]) if c[1] else hq.last(c[0])
-            return ("ctor", name, tuple((str(i), self.expr(a, env, depth)) for i, a in enumerate(e["args"])))
+            r_ = ("ctor", name, tuple((str(i), self.expr(a, env, depth)) for i, a in enumerate(e["args"])))
+            if e.get("ty"):
+                self.ctor_types[r_] = e["ty"]
+            return r_
         g = callee_generic(e)
         args = [self.expr(a, env, depth) for a in e["args"]]
         self._cur_env = env
